@@ -1,8 +1,238 @@
 (* C06 -- property theorems only: statement + exact + Print Assumptions. *)
-From Coq Require Import List ZArith.
-From LJT Require Import model.Transform proofs.TransformProofs.
+From Coq Require Import List ZArith Bool String.
+From LJT Require Import model.Transform model.TransformSpec
+  proofs.TransformProofs proofs.TransformPlane proofs.TransformImage proofs.TransformGeneral
+  gen.GenXform proofs.TransformGenFacts.
+Import ListNotations.
 Local Open Scope Z_scope.
 
+(* (1a) JCOEF negation (16-bit wrap) is an involution on every value, -32768 included *)
 Theorem C06_neg16_involutive : forall x, -32768 <= x <= 32767 -> neg16 (neg16 x) = x.
 Proof. exact neg16_involutive. Qed.
 Print Assumptions C06_neg16_involutive.
+
+(* (1b) the seven in-block loop bodies of transupp.c are the signed permutations of the spec *)
+Theorem C06_inblock_loops : forall b,
+  blk_fliph b = act D_fh b /\ blk_flipv b = act D_fv b /\ blk_transpose b = act D_tr b /\
+  blk_rot90 b = act D_r90 b /\ blk_rot270 b = act D_r270 b /\ blk_rot180 b = act D_r180 b /\
+  blk_transverse b = act D_tv b.
+Proof.
+  exact (fun b => conj (blk_fliph_spec b) (conj (blk_flipv_spec b) (conj (blk_transpose_spec b)
+         (conj (blk_rot90_spec b) (conj (blk_rot270_spec b) (conj (blk_rot180_spec b) (blk_transverse_spec b))))))).
+Qed.
+Print Assumptions C06_inblock_loops.
+
+(* (1c) the eight block maps form the dihedral group: closed under composition for all
+   coefficient values, with this multiplication table *)
+Theorem C06_d4_action : forall g h b, Forall int16 b -> act g (act h b) = act (d4_mul g h) b.
+Proof. exact act_act. Qed.
+Print Assumptions C06_d4_action.
+
+Theorem C06_d4_table :
+  map (fun g => map (d4_mul g) all_d4) all_d4 =
+  [ [D_id;   D_fh;   D_fv;   D_r180; D_tr;   D_r90;  D_r270; D_tv];
+    [D_fh;   D_id;   D_r180; D_fv;   D_r90;  D_tr;   D_tv;   D_r270];
+    [D_fv;   D_r180; D_id;   D_fh;   D_r270; D_tv;   D_tr;   D_r90];
+    [D_r180; D_fv;   D_fh;   D_id;   D_tv;   D_r270; D_r90;  D_tr];
+    [D_tr;   D_r270; D_r90;  D_tv;   D_id;   D_fv;   D_fh;   D_r180];
+    [D_r90;  D_tv;   D_tr;   D_r270; D_fh;   D_r180; D_id;   D_fv];
+    [D_r270; D_tr;   D_tv;   D_r90;  D_fv;   D_id;   D_r180; D_fh];
+    [D_tv;   D_r90;  D_r270; D_tr;   D_r180; D_fh;   D_fv;   D_id] ].
+Proof. exact d4_mul_table. Qed.
+Print Assumptions C06_d4_table.
+
+(* (1d) involutions, inverse rotations, generators: rot90 = flipH o transpose, ... *)
+Theorem C06_block_laws : forall b, wf_blk b ->
+  act D_fh (act D_fh b) = b /\ act D_fv (act D_fv b) = b /\ act D_tr (act D_tr b) = b /\
+  act D_r180 (act D_r180 b) = b /\ act D_tv (act D_tv b) = b /\
+  act D_r270 (act D_r90 b) = b /\ act D_r90 (act D_r270 b) = b /\
+  act D_r90 b = act D_fh (act D_tr b) /\ act D_r270 b = act D_tr (act D_fh b) /\
+  act D_r270 b = act D_fv (act D_tr b) /\ act D_r180 b = act D_fh (act D_fv b) /\
+  act D_tv b = act D_tr (act D_r180 b) /\ act D_tv b = act D_fh (act D_tr (act D_fh b)).
+Proof. exact block_laws. Qed.
+Print Assumptions C06_block_laws.
+
+(* (2) every routine dispatched by jtransform_execute_transform computes the plane
+   specification: relocated + sign/transposition adjusted inside the mirrorable area,
+   edge blocks left in place (transposed when the operation transposes); all plane sizes,
+   sampling factors, crop offsets, source sizes *)
+Theorem C06_do_op_meets_spec : forall op slow g src x y,
+  geom_ok g -> 0 <= x < g_wb g -> 0 <= y ->
+  (op = XFlipH -> g_yco g = 0 -> slow = false -> inplace_ok g) ->
+  exec_comp op slow g src x y = spec_comp op g src x y.
+Proof. exact exec_comp_meets_spec. Qed.
+Print Assumptions C06_do_op_meets_spec.
+
+(* (2b) the in-place row algorithm of do_flip_h_no_crop (swap loop, then left-justify loop) *)
+Theorem C06_flip_h_inplace_row : forall (cw xc wb : nat) (row : list blk) (x : nat),
+  (cw <= List.length row)%nat -> (wb + xc <= List.length row)%nat -> (x < wb)%nat ->
+  nth x (flip_h_row_inplace cw xc wb row) [] =
+  if (x + xc <? cw)%nat then blk_fliph (nth (cw - 1 - (x + xc)) row []) else nth (x + xc) row [].
+Proof. exact flip_h_row_inplace_spec. Qed.
+Print Assumptions C06_flip_h_inplace_row.
+
+(* (2c) THE GENERAL STATEMENT.  Any image whose component sizes are consistent with its
+   dimensions, any accepted request (crop, trim, perfect, grayscale, slow hflip): the result has
+   the planned dimensions, every component the corresponding size in blocks, and every
+   destination block is the source block named by the specification -- which lies inside the
+   source plane -- with the specified sign/transposition adjustment.  Blocks of a cropped or
+   trimmed region are absent; nothing is taken from outside the image. *)
+Theorem C06_transform_blocks : forall im o im',
+  src_consistent im -> opts_nonneg o -> transform im o = inr im' ->
+  exists p, request_workspace im o = inr p /\
+    i_w im' = p_ow p /\ i_h im' = p_oh p /\
+    Forall2 (fun c c' =>
+       c_wb c' = cdiv (p_ow p * c_hs c') (p_imw p) /\ c_hb c' = cdiv (p_oh p * c_vs c') (p_imh p) /\
+       forall x y, 0 <= x < c_wb c' -> 0 <= y < c_hb c' ->
+         let '(g, sx, sy) := pos_of o im p c' x y in
+         0 <= sx < c_wb c /\ 0 <= sy < c_hb c /\ c_blk c' x y = d4_apply g (c_blk c sx sy))
+      (firstn (Z.to_nat (p_nc p)) (i_comps im)) (i_comps im').
+Proof. exact transform_blocks. Qed.
+Print Assumptions C06_transform_blocks.
+
+(* the plan keeps the crop region inside the (transformed) image, offsets in whole iMCUs *)
+Theorem C06_plan_facts : forall im o p,
+  1 <= i_w im -> 1 <= i_h im -> opts_nonneg o ->
+  request_workspace im o = inr p -> plan_facts im o p.
+Proof. exact plan_ok. Qed.
+Print Assumptions C06_plan_facts.
+
+(* (3a) whole planes: op2 after op1 is the product operation, for all 64 pairs *)
+Theorem C06_plane_compose : forall op2 op1 w h src x y,
+  wf_in w h src ->
+  0 <= x < tw op2 (tw op1 w h) (th op1 w h) -> 0 <= y < th op2 (tw op1 w h) (th op1 w h) ->
+  full_plane op2 (tw op1 w h) (th op1 w h) (full_plane op1 w h src) x y =
+  full_plane (op_mul op2 op1) w h src x y.
+Proof. exact full_plane_compose. Qed.
+Print Assumptions C06_plane_compose.
+
+(* (3b) images made of whole iMCUs: a plain transform succeeds, meets the whole-plane spec in
+   every component (dimensions, sampling factors, tables, blocks) and yields a whole-iMCU image *)
+Theorem C06_transform_whole : forall op im Mw Mh,
+  whole_image im Mw Mh ->
+  exists im', transform im (plain op) = inr im' /\ image_rel op im im' /\
+              whole_image im' (tw op Mw Mh) (th op Mw Mh).
+Proof. exact transform_plain_whole. Qed.
+Print Assumptions C06_transform_whole.
+
+(* (3c) group laws on whole-iMCU images: rot90 then rot270 restores the image, ... *)
+Theorem C06_group_laws : forall im Mw Mh (ops : xop * xop),
+  whole_image im Mw Mh ->
+  In ops [(XRot90, XRot270); (XRot270, XRot90); (XRot180, XRot180); (XFlipH, XFlipH); (XFlipV, XFlipV);
+          (XTranspose, XTranspose); (XTransverse, XTransverse); (XNone, XNone)] ->
+  exists im1 im2, transform im (plain (fst ops)) = inr im1 /\ transform im1 (plain (snd ops)) = inr im2 /\
+                  image_same im im2.
+Proof. exact group_laws_whole. Qed.
+Print Assumptions C06_group_laws.
+
+Theorem C06_compose_whole : forall op1 op2 im Mw Mh,
+  whole_image im Mw Mh ->
+  exists im1 im2, transform im (plain op1) = inr im1 /\ transform im1 (plain op2) = inr im2 /\
+                  image_rel (op_mul op2 op1) im im2.
+Proof. exact transform_compose_whole. Qed.
+Print Assumptions C06_compose_whole.
+
+(* (4) jtransform_perfect_transform is true iff no partial iMCU lies on a mirrored source
+   edge; a request flagged perfect fails exactly then *)
+Theorem C06_perfect_iff : forall w h mw mh op,
+  perfect_transform w h mw mh op = true <->
+  ((mirrors_src_x op = true -> w mod mw = 0) /\ (mirrors_src_y op = true -> h mod mh = 0)).
+Proof. exact perfect_iff. Qed.
+Print Assumptions C06_perfect_iff.
+
+Theorem C06_request_not_perfect_iff : forall im o,
+  request_workspace im o = inl ENotPerfect <-> (xo_perfect o = true /\ perfect_arg im o = false).
+Proof. exact request_not_perfect_iff. Qed.
+Print Assumptions C06_request_not_perfect_iff.
+
+(* (5) trim arithmetic *)
+Theorem C06_trim_nocrop : forall full imcu, 0 < imcu -> 0 <= full ->
+  trim_edge full imcu 0 full = if full <? imcu then full else full - full mod imcu.
+Proof. exact trim_edge_nocrop. Qed.
+Print Assumptions C06_trim_nocrop.
+
+Theorem C06_trim_all_mirrorable : forall out imcu off full,
+  0 < imcu -> 0 <= off -> imcu <= out -> off * imcu + out <= full ->
+  off + cdiv (trim_edge out imcu off full) imcu <= full / imcu.
+Proof. exact trim_edge_all_mirrorable. Qed.
+Print Assumptions C06_trim_all_mirrorable.
+
+(* (6) quantisation tables and sampling factors follow the operation, any options *)
+Theorem C06_tables_follow : forall im o im',
+  transform im o = inr im' ->
+  Forall (fun c => List.length (c_q c) = 64%nat) (i_comps im) ->
+  exists nc, (nc <= List.length (i_comps im))%nat /\
+    Forall2 (fun c c' => c_q c' = spec_q (xo_op o) (c_q c) /\
+                         (c_hs c', c_vs c') = dst_samp (Z.of_nat nc) (transposes (xo_op o)) c)
+            (firstn nc (i_comps im)) (i_comps im').
+Proof. exact transform_tables_follow. Qed.
+Print Assumptions C06_tables_follow.
+
+Theorem C06_transpose_q : forall q, List.length q = 64%nat ->
+  transpose_q q = map (fun k => nth (tr_idx k) q 0) (seq 0 64).
+Proof. exact transpose_q_spec. Qed.
+Print Assumptions C06_transpose_q.
+
+(* (7) facts regenerated from the CURRENT source on every run (tools/gen_Xform.py): operation
+   codes, perfect tests, trim calls, transposition switches, routine dispatch, TurboJPEG iMCU table *)
+Theorem C06_source_dispatch :
+  gen_jxform_order = all_ops /\
+  gen_tjxop_map = map (fun op => (op, op)) all_ops /\
+  gen_perfect = map (fun op => (op, mirrors_src_x op, mirrors_src_y op)) all_ops /\
+  gen_trim = map (fun op => (op, trim_dim_right op, trim_dim_bottom op)) all_ops /\
+  gen_trim_right_shape = ["output_width"; "iMCU_sample_width"; "x_crop_offset"; "iMCU_sample_width";
+                          "output_width"; "iMCU_sample_width"]%string /\
+  gen_trim_bottom_shape = ["output_height"; "iMCU_sample_height"; "y_crop_offset"; "iMCU_sample_height";
+                           "output_height"; "iMCU_sample_height"]%string /\
+  gen_transpose_it = map (fun op => (op, transposes op)) all_ops /\
+  gen_swap_dims = map (fun op => (op, transposes op)) all_ops /\
+  gen_transpose_critical = map (fun op => (op, transposes op)) all_ops /\
+  gen_exec = [(XNone, ["do_crop_ext_reflect"; "do_crop_ext_flat"; "do_crop_ext_zero"; "do_crop"]);
+              (XFlipH, ["do_flip_h"; "do_flip_h_no_crop"]); (XFlipV, ["do_flip_v"]);
+              (XTranspose, ["do_transpose"]); (XTransverse, ["do_transverse"]); (XRot90, ["do_rot_90"]);
+              (XRot180, ["do_rot_180"]); (XRot270, ["do_rot_270"])]%string /\
+  Forall (fun e => let '((hs, vs), (w, h), (dhs, dvs)) := e in
+                   w = 8 * hs /\ h = 8 * vs /\ dhs = vs /\ dvs = hs) gen_tjsamp.
+Proof. exact gen_facts_ok. Qed.
+Print Assumptions C06_source_dispatch.
+
+(* the model's trim table in the same form, for every image *)
+Theorem C06_model_trim_table : forall im op,
+  let ncs := Z.of_nat (List.length (i_comps im)) in
+  let imw := if ncs =? 1 then 8 else tw op (max_hs (i_comps im)) (max_vs (i_comps im)) * 8 in
+  let imh := if ncs =? 1 then 8 else th op (max_hs (i_comps im)) (max_vs (i_comps im)) * 8 in
+  let ow0 := tw op (i_w im) (i_h im) in let oh0 := th op (i_w im) (i_h im) in
+  request_workspace im (mkxopts op false true false None false) =
+  inr (mkplan ncs (if mirror_x op then trim_edge ow0 imw 0 ow0 else ow0)
+                  (if mirror_y op then trim_edge oh0 imh 0 oh0 else oh0) imw imh 0 0).
+Proof. exact request_trim_only. Qed.
+Print Assumptions C06_model_trim_table.
+
+(* ---- non-vacuity ---- *)
+Example C06_ex_whole_image : whole_image ex_image 3 2.
+Proof. exact ex_image_whole. Qed.
+
+Example C06_ex_min_coefficient : nth 1%nat (act D_fh (0 :: -32768 :: repeat 5 62)) 0 = -32768.
+Proof. exact act_fh_min. Qed.
+
+Example C06_ex_perfect :
+  perfect_transform 40 32 16 16 XFlipH = false /\ perfect_transform 40 32 16 16 XFlipV = true /\
+  perfect_transform 40 32 16 16 XRot90 = true /\ perfect_transform 40 32 16 16 XRot270 = false.
+Proof. exact ex_perfect. Qed.
+
+Example C06_ex_trim :
+  trim_edge 40 16 0 40 = 32 /\ trim_edge 24 16 1 40 = 16 /\ trim_edge 16 16 0 40 = 16 /\ trim_edge 9 16 0 9 = 9.
+Proof. exact ex_trim. Qed.
+
+(* partial iMCUs on both edges, rot90 + trim + crop: hypotheses of C06_transform_blocks hold
+   and the transform is accepted *)
+Example C06_ex_general_hyps : src_consistent ex_image2 /\ opts_nonneg ex_opts2.
+Proof. exact ex_image2_consistent. Qed.
+
+Example C06_ex_general_accepts :
+  exists im', transform ex_image2 ex_opts2 = inr im' /\ i_w im' = 8 /\ i_h im' = 24 /\
+              map (fun c => (c_hs c, c_vs c, c_wb c, c_hb c)) (i_comps im') = [(2, 2, 1, 3); (1, 1, 1, 2); (1, 1, 1, 2)].
+Proof. exact ex_image2_transforms. Qed.
+
+Example C06_ex_geometry : geom_ok (mkgeom 2 2 2 3 5 40 29 2 2 1 0) /\ inplace_ok (mkgeom 2 2 3 4 5 40 29 2 2 1 0).
+Proof. exact ex_geom. Qed.
